@@ -296,3 +296,17 @@ contract(
     returns=INT,
     ensures=[tag("C07", "nonneg", "result >= 0")],
 )
+
+
+# ====================================================================== GamePlanLength wrapper (C08): bye penalty and bounds
+contract(
+    PL + ":GamePlanLength.__init__",
+    props="C08",
+    params={"instance": A2("DM")},
+    i64=False,
+    requires=["shape(instance, 0) >= 1 and shape(instance, 1) == shape(instance, 0)"],
+    summaries={"if #0": Summary({}, [], "isinstance check"), "call super().__init__ #0": Summary({}, [], "Objective.__init__")},
+    ensures=[tag("C08", "bye-penalty-is-twice-the-largest-distance-plus-one",
+                 "forall(a, 0, shape(instance, 0), forall(b, 0, shape(instance, 0), self.bye_penalty >= 2 * instance[a, b] + 1))"
+                 " and exists(a, 0, shape(instance, 0), exists(b, 0, shape(instance, 0), self.bye_penalty == 2 * instance[a, b] + 1))")],
+)
